@@ -358,7 +358,13 @@ class World:
                     o["parts"] = [self.part_obs(f) if f is not None else None for f in _parts_of(val)]
                 slots.append(o)
             names = {s["name"] for s in row["obs"][c - 1]["slots"]}
-            changed = sorted(n for n, v in self.extra[c].items() if K.__dict__.get(n, self) is not v)
+            def rebuilt(old, new):
+                # implicit members (Enum._generate_next_value_, Protocol.__subclasshook__) are descriptors of
+                # the class' own namespace: beartype rebuilds the descriptor around the same function
+                return (type(old) is type(new) and isinstance(old, (classmethod, staticmethod))
+                        and old.__func__ is new.__func__)
+            changed = sorted(n for n, v in self.extra[c].items()
+                             if K.__dict__.get(n, self) is not v and not rebuilt(v, K.__dict__.get(n, self)))
             added = sorted(n for n in K.__dict__ if n not in names and n not in self.extra[c])
             obs[c] = {"slots": slots, "changed": changed, "added": added}
         verd = [self.verdict(v) for v in sorted(row["verdicts"], key=lambda v: (v["c"], v["n"], v["p"]))]
@@ -825,7 +831,7 @@ def _groups(tier):
         g.append(("base-x-derived", dict(VB=FUNCV, VD=FUNCV, Orders=["basefirst", "derivedfirst", "twice"], Confs=["D", "N"])))
         g.append(("deep", dict(VI=some, VDeep=ALLV, VD=["Fa"], Orders=["single", "innerfirst", "outerfirst"])))
     metas = ["type", "abc", "custom", "enum", "protocol"]
-    g.append(("meta-nested", dict(VI=["Fa", "Cn", "Sa", "Pua"] if q else ALLV, MI=metas, VDeep=["none", "Fa"], ME=["type"] if q else metas,
+    g.append(("meta-nested", dict(VI=["Fa", "Cn", "Sa", "Pua"] if q else ALLV, MI=metas, VDeep=["none", "Fa"], ME=["type"] if q else ["type", "enum"],
                                   Orders=["single", "innerfirst"] if q else ["single", "innerfirst", "outerfirst", "twice"],
                                   Confs=["D", "N"] if q else ["D", "O0", "N"])))
     g.append(("meta-top", dict(VB=["Fa", "Paa"] if q else some, MB=["abc", "custom", "protocol"], VD=["Fa"] if q else ["Fa", "Sa"],
